@@ -272,6 +272,11 @@ func runVec(rep *Report, v *Vec, rng *rand.Rand, fresh map[string]bool) {
 		}
 	case "failing":
 		ff.Signer = func(_ context.Context, b []byte) (string, error) { return "", errSign }
+		if rng.Intn(3) == 0 {
+			// a signer can also fail by panicking (a closed HSM session, a nil key map): whatever becomes of the panic,
+			// the event is not forwarded unsigned
+			ff.Signer = func(_ context.Context, b []byte) (string, error) { panic("harness: the signer panicked") }
+		}
 	}
 	typ := fmt.Sprintf("type-%d", rng.Intn(5))
 	if rng.Intn(4) == 0 {
@@ -336,7 +341,16 @@ func runVec(rep *Report, v *Vec, rng *rand.Rand, fresh map[string]bool) {
 		cancel()
 		pctx = c
 	}
-	out, err := ff.Process(pctx, e)
+	var out *eventlogger.Event
+	var err error
+	func() {
+		defer func() {
+			if p := recover(); p != nil {
+				out, err = nil, fmt.Errorf("Process panicked: %v", p) // nothing was forwarded
+			}
+		}()
+		out, err = ff.Process(pctx, e)
+	}()
 	func() {
 		if held.e != nil {
 			if cur, ok := held.e.Format(held.key); !ok || !bytes.Equal(cur, held.doc) {
